@@ -3,6 +3,8 @@ import os
 import facts as F
 from report import Report
 import r_ioerr
+import r_loop
+import r_guard
 
 
 def c15(facts, tier):
@@ -17,7 +19,57 @@ def c15(facts, tier):
     return rep
 
 
+def c05(facts, tier):
+    rep = Report("C05", tier, facts,
+                 "R-LOOP: every while/loop of evaluator.rs and context.rs (whole crate in the thorough tier) has a "
+                 "variant — the exit condition reads something the loop writes, or the body has an exit; the "
+                 "level-walking loops of the *_to family hand the walked object to a callee that advances it to "
+                 "next_context_data on every normally-returning path (interprocedural must-pass-through), so they "
+                 "terminate or refuse; their only normal exit is `parms_id(x) == target`.",
+                 "that the decrypted message is preserved; rounding bounds of rescaling; the arithmetic of the "
+                 "BGV correction factor.")
+    files = None if tier == "thorough" else {"src/evaluator.rs", "src/context.rs", "src/app/lwe.rs"}
+    n_loops, n_walk = r_loop.run(facts, rep, scope_files=files)
+    rep.floor("R-LOOP", "while/loop statements analysed", n_loops, 60 if files else 600)
+    rep.floor("R-LOOP(adv)", "level-walking loops (condition on parms_id of a written object)", n_walk, 3)
+    return rep
+
+
+API_TYPES = ("evaluator::Evaluator", "encryptor::Encryptor", "encryptor::Decryptor")
+
+
+def api_entries(facts):
+    ents = []
+    for t in API_TYPES:
+        ents += facts.methods_of(t, pub_only=True)
+    ents += [p for p in facts.methods_of("batch_encoder::BatchEncoder", pub_only=True)
+             if facts.items[p]["name"] in ("decode", "decode_new")]
+    ents += [p for p in facts.methods_of("ckks_encoder::CKKSEncoder", pub_only=True)
+             if facts.items[p]["name"].startswith("decode")]
+    return ents
+
+
+def c06(facts, tier):
+    rep = Report("C06", tier, facts,
+                 "R-GUARD(valid), pre-effect mode: for every public operation of Evaluator, Encryptor, Decryptor and "
+                 "the decoders, each Ciphertext/Plaintext operand is validated (is_valid_for or metadata+data "
+                 "validity; seed refusal for ciphertexts) on every path before the first write to it or the first "
+                 "arithmetic on its residues, tracked interprocedurally through clones and all three API forms.",
+                 "byte equality of the three API forms as values; that returned objects satisfy is_valid_for "
+                 "(canonical residues, consistent metadata) — only the structural conditions are decided.")
+    eng = r_guard.GuardEngine(facts)
+    ents = api_entries(facts)
+    rep.floor("R-GUARD(valid)", "public entry points (Evaluator/Encryptor/Decryptor/decoders)", len(ents), 115)
+    n_pairs, n_eff = r_guard.check_validity(facts, rep, eng, ents)
+    rep.floor("R-GUARD(valid)", "(entry, operand) pairs", n_pairs, 100)
+    rep.floor("R-GUARD(valid)", "(entry, operand) pairs with a guarded first use", n_eff, 100)
+    rep.extra["guard_engine"] = eng.stats
+    return rep
+
+
 CHECKS = {
+    "C06": c06,
+    "C05": c05,
     "C15": c15,
 }
 
